@@ -19,10 +19,12 @@ KINDS = {
     'info': [('', 'info')], 'contact': [('', 'contact')], 'license': [('', 'license')],
     'externalDocs': [('', 'externalDocs')], 'tag': [('', 'tag')], 'xml': [('', 'xml')],
     'operation': [('', 'operation')], 'pathItem': [('', 'pathItem')], 'paths': [('', 'paths')],
-    'response': [('', 'response')], 'responses': [('', 'responses')], 'header': [('', 'header')],
+    'response': [('', 'response'), ('ref', 'jsonReference')], 'responses': [('', 'responses')], 'header': [('', 'header')],
     'items': [('', 'primitivesItems')], 'schema': [('', 'schema')],
     'parameter': [('body', 'bodyParameter'), ('query', 'queryParameterSubSchema'), ('header', 'headerParameterSubSchema'),
-                  ('formData', 'formDataParameterSubSchema'), ('path', 'pathParameterSubSchema')],
+                  ('formData', 'formDataParameterSubSchema'), ('path', 'pathParameterSubSchema'),
+                  # a parameter / response may be given as a JSON reference wherever one is expected
+                  ('ref', 'jsonReference')],
     'securityScheme': [('basic', 'basicAuthenticationSecurity'), ('apiKey', 'apiKeySecurity'), ('implicit', 'oauth2ImplicitSecurity'),
                        ('password', 'oauth2PasswordSecurity'), ('application', 'oauth2ApplicationSecurity'),
                        ('accessCode', 'oauth2AccessCodeSecurity')],
@@ -108,7 +110,7 @@ def main():
             props = set(node.get('properties', {}))
             if kind == 'schema':
                 props |= set(d4['properties'])          # draft-04 vocabulary
-            if kind == 'parameter' and fl != 'body':
+            if kind == 'parameter' and fl not in ('body', 'ref'):
                 props.discard('$ref')
             req = set(node.get('required', []))
             ext = any(p.startswith('^x-') for p in node.get('patternProperties', {}))
@@ -118,13 +120,13 @@ def main():
             if unknown:
                 sys.exit('gen_vocabulary: meta-schema keywords without a value type for kind %s/%s: %s' % (kind, fl, sorted(unknown)))
             # the non-body parameter sub-schemas require type (through their oneOf); name and in are required for all
-            if kind == 'parameter':
+            if kind == 'parameter' and fl != 'ref':
                 req |= {'name', 'in'}
                 if fl != 'body':
                     req |= {'type'}
             if kind == 'securityScheme' and fl in ('implicit', 'password', 'application', 'accessCode'):
                 req |= {'scopes'}
-            lib = LIBRARY.get(kind, set()) - props
+            lib = set() if fl == 'ref' else LIBRARY.get(kind, set()) - props
             rows.append((kind, fl, props, req, ext, lib))
     with open(out, 'w') as f:
         f.write('---------------------------- MODULE Vocabulary ----------------------------\n')
